@@ -1741,6 +1741,7 @@ impl Block {
                                                     transaction,
                                                     output1,
                                                     input2.clone(),
+                                                    output2,
                                                     output3,
                                                 );
 
